@@ -615,6 +615,27 @@ func maprangeMain(args []string) {
 						}
 					}
 				}
+				if kind == "unknown" {
+					// a name bound several times in the function (the environment is flow-insensitive):
+					// not a map if NONE of its bindings can be one
+					if id, ok := r.X.(*ast.Ident); ok && len(e.vars[id.Name]) > 1 {
+						all := true
+						for _, t := range e.vars[id.Name] {
+							switch u := m.underlying(t, 0).(type) {
+							case *ast.ArrayType, *ast.ChanType:
+							case *ast.Ident:
+								if u.Name != "string" && u.Name != "int" {
+									all = false
+								}
+							default:
+								all = false
+							}
+						}
+						if all {
+							kind = "no"
+						}
+					}
+				}
 				if kind == "no" {
 					notmap++
 					return
